@@ -1,22 +1,31 @@
-/* harnesses (one per unit; selected by goto-cc --function) */
+/* harnesses (one per unit; selected by goto-cc --function).  The queue object (and the unique_lock where one is passed) is a local
+ * of the harness with arbitrary content, shaped by the `requires` of the contract; ps_q is ASSIGNED here (see lib/model_pubsub.c). */
+#define HQ QT qo; QT *q = &qo; ps_q = q
+#define HLK ULK lko; ULK *lk = &lko; lko._M_device = &qo._mx
 #ifdef CV_HAS_q_subscribe_lk_pos
-void h_subscribe_lk_pos(void) { QT *q; SUBT *s; cv_i64 pos; q_subscribe_lk_pos(q, s, pos); __CPROVER_assert(0, "SENTINEL reachable"); }
+void h_subscribe_lk_pos(void) { HQ; SUBT *s; cv_i64 pos; q_subscribe_lk_pos(q, s, pos); __CPROVER_assert(0, "SENTINEL reachable"); }
 #endif
 #ifdef CV_HAS_q_subscribe_lk_recent
-void h_subscribe_lk_recent(void) { QT *q; SUBT *s; q_subscribe_lk_recent(q, s); __CPROVER_assert(0, "SENTINEL reachable"); }
+void h_subscribe_lk_recent(void) { HQ; SUBT *s; q_subscribe_lk_recent(q, s); __CPROVER_assert(0, "SENTINEL reachable"); }
 #endif
 #ifdef CV_HAS_q_subscribe_lk_copy
-void h_subscribe_lk_copy(void) { QT *q; SUBT *s; cv_i64 h; q_subscribe_lk_copy(q, h, s); __CPROVER_assert(0, "SENTINEL reachable"); }
+void h_subscribe_lk_copy(void) { HQ; SUBT *s; cv_i64 h; q_subscribe_lk_copy(q, h, s); __CPROVER_assert(0, "SENTINEL reachable"); }
 #endif
 #ifdef CV_HAS_q_leave_lk
-void h_leave_lk(void) { QT *q; cv_i64 h; q_leave_lk(q, h); __CPROVER_assert(0, "SENTINEL reachable"); }
+void h_leave_lk(void) { HQ; cv_i64 h; q_leave_lk(q, h); __CPROVER_assert(0, "SENTINEL reachable"); }
 #endif
 #ifdef CV_HAS_q_advance_lk
-void h_advance_lk(void) { QT *q; cv_i64 h; cv_i32 t; q_advance_lk(q, h, t); __CPROVER_assert(0, "SENTINEL reachable"); }
+void h_advance_lk(void) { HQ; cv_i64 h; cv_i32 t; q_advance_lk(q, h, t); __CPROVER_assert(0, "SENTINEL reachable"); }
 #endif
 #ifdef CV_HAS_q_advance_suspend_lk
-void h_advance_suspend_lk(void) { QT *q; cv_i64 h; AWT *a; q_advance_suspend_lk(q, h, a); __CPROVER_assert(0, "SENTINEL reachable"); }
+void h_advance_suspend_lk(void) { HQ; cv_i64 h; AWT *a; q_advance_suspend_lk(q, h, a); __CPROVER_assert(0, "SENTINEL reachable"); }
 #endif
 #ifdef CV_HAS_q_get_value_lk
-void h_get_value_lk(void) { QT *q; cv_i64 h; cv_i32 t; q_get_value_lk(q, h, t); __CPROVER_assert(0, "SENTINEL reachable"); }
+void h_get_value_lk(void) { HQ; cv_i64 h; cv_i32 t; q_get_value_lk(q, h, t); __CPROVER_assert(0, "SENTINEL reachable"); }
+#endif
+#ifdef CV_HAS_q_push_lk
+void h_push_lk(void) { HQ; HLK; cv_i64 n; q_push_lk(q, lk, n); __CPROVER_assert(0, "SENTINEL reachable"); }
+#endif
+#ifdef CV_HAS_q_kick_lk
+void h_kick_lk(void) { HQ; SUBT *s; HLK; q_kick_lk(q, s, lk); __CPROVER_assert(0, "SENTINEL reachable"); }
 #endif
